@@ -42,7 +42,7 @@ def ajob(name, al, am, fsz, rlen, ops, timeout, **kw):
     extra = dict(tv=(am == 0))
     if 1 in ops: extra.update(NOPA)
     extra.update(kw)
-    return Job(name, A, 'harness_aligned', defines=D, unwind=cap + 2, shims=SH, ir2c=MAP, timeout=timeout, tv_vectors=1500, small=[0, 1, 2, 3, 4, 5, 7, 8, 9, 12, 15, 16],
+    return Job(name, A, 'harness_aligned', defines=D, unwind=cap + 2, shims=SH, ir2c=MAP, timeout=timeout, tv_vectors=600, small=[0, 1, 2, 3, 4, 5, 7, 8, 9, 12, 15, 16],
                desc='AlignedFileAdaptor %s vs plain file, alignment %d, align_memory %d' % (' then '.join(OPN[o] for o in ops), al, am),
                bounds='file size 1..%d, offset < size, length 0..%d' % (fsz, rlen), **extra)
 
@@ -64,7 +64,7 @@ def vjob(al, am, fsz, rlen, op, timeout, mem_gb=10):
            'verif_memmove_n.0', 'verif_memmove_n.1', 'f__ZN7MemFile2rdEPvml.0', 'f__ZN7MemFile2wrEPKvml.0']
     return Job('alv_%s_a%d_m%d' % (OPN[op], al, am), A, 'harness_aligned',
                defines=['VECTORED', 'ALIGN=%d' % al, 'AMEM=%d' % am, 'FSZ=%d' % fsz, 'RLEN=%d' % rlen, 'NOPS=1', 'OP1=%d' % op, 'NIOV=2'],
-               unwind=5, unwindset=['%s:%d' % (l, cap + 2) for l in big], shims=SH + ['c16_fwd.c'], ir2c=MAP + VSTUB, timeout=timeout, mem_gb=mem_gb, tv=(am == 0), tv_vectors=1500, small=[0, 1, 2, 3, 4, 5, 6],
+               unwind=5, unwindset=['%s:%d' % (l, cap + 2) for l in big], shims=SH + ['c16_fwd.c'], ir2c=MAP + VSTUB, timeout=timeout, mem_gb=mem_gb, tv=(am == 0), tv_vectors=600, small=[0, 1, 2, 3, 4, 5, 6],
                desc='AlignedFileAdaptor %s_mutable (2 segments) vs plain file, alignment %d, align_memory %d' % (OPN[op][:-1], al, am),
                bounds='file size 1..%d, offset < size, total length 0..%d split into 2 segments' % (fsz, rlen), **NOPA)
 
@@ -113,10 +113,9 @@ def jobs(tier):
             J.append(xjob(kind, unit, 3, (op,), T))
     if q: return J
     # ---- thorough: 2 sub-files, larger variable sizes, sequences, vectored
-    for kind, unit in XK + [(2, 4)]:
+    for kind, unit, nsub in ((0, 3, 2), (1, 2, 2), (2, 3, 2), (3, 2, 2), (3, 4, 2), (2, 4, 3)):
         for op in (0, 1):
-            if (kind, unit) != (2, 4): J.append(xjob(kind, unit, 2, (op,), T))
-            else: J.append(xjob(kind, unit, 3, (op,), T))
+            J.append(xjob(kind, unit, nsub, (op,), T))
     for kind, unit in XK:
         for ops in ((1, 0), (1, 1)):
             if (kind, unit, ops) != (3, 4, (1, 1)):      # stripe 4 x 3 sub-files, write-write: ~15 min, left out of the 30-minute tier
